@@ -180,3 +180,5 @@ func runBuildOnly(c *checker) {
 }
 
 func init() { modes["build"] = runBuildOnly }
+
+func jobWithDriver(b *built) *gobuild.Job { return gobuild.JobFor(b.prog, b.schema, b.opts, true) }
